@@ -9,4 +9,7 @@ VARIANTS = [
  dict(id='c03-dim-dpa-unnormalised-zeros', prop='C03', file=DP, expect='C03-D5', old="result = normalized_ones - normalized_zeros", new="result = normalized_ones - accumulator_zeros"),
  dict(id='c03-silent-dim-regrouped', prop='C03', kind='silent', file=CP, old="common_1 = _np.sqrt(self.ex2 - self.processed_traces * ((self.ex / self.processed_traces)**2))", new="common_1 = _np.sqrt(self.ex2 - (self.ex ** 2) / self.processed_traces)"),
  dict(id='c03-silent-dim-alt-regrouped', prop='C03', kind='silent', file=CP, old="sigma_traces = _np.sqrt(self.processed_traces * self.ex2 - (self.ex) ** 2)", new="n_traces = self.processed_traces\n        sigma_traces = _np.sqrt(n_traces * self.ex2 - self.ex * self.ex)"),
+ dict(id='c03-dpa-raw-trace-sum-before-cast', prop='C03', expect='C03-D4', file='scared/distinguishers/dpa.py',
+      edits=[('scared/distinguishers/dpa.py', "        self.processed_ones += _np.sum(data, axis=0)\n        traces = traces.astype(self.precision)\n", "        self.processed_ones += _np.sum(data, axis=0)\n        self.accumulator_traces += _np.sum(traces, axis=0)\n        traces = traces.astype(self.precision)\n"),
+             ('scared/distinguishers/dpa.py', "        data = data.astype(self.precision)\n        self.accumulator_traces += _np.sum(traces, axis=0)\n", "        data = data.astype(self.precision)\n")]),
 ]
